@@ -298,6 +298,13 @@ PROPS["C11"] = {
     "outside": "time, sweeper interleavings, recovery, insert_with_ttl's non-Bytes twin (same expression, not separately encoded)",
 }
 
+PROPS["C16"]["smt"] = "c16"
+PROPS["C16"]["engine_name"] = "E1-kani + E2-mir-smt"
+PROPS["C16"]["technique"] += "; SMT (z3) over the MIR of ClockCache::insert_entry / remove_entry for the accounting deltas"
+PROPS["C16"]["level_text"] += " z3-decided over MIR, every path: insert_entry pushes a new entry recording size S and adds exactly S; an in-place replacement stores the new S in the entry and moves the counter exactly once in the direction of the size change; a refused replacement changes nothing; remove_entry subtracts exactly the removed entry's recorded size, once, only when an entry is removed – the step invariants behind `reported memory == sum of entry sizes`."
+PROPS["C16"]["level_note"] = "Guard function and accounting step obligations; " + E2NOTE + ". Cache-on/off equivalence of workloads, eviction to the low watermark and concurrency are outside the claim."
+PROPS["C16"]["functions"] += ["src/core/cache.rs::insert_entry", "src/core/cache.rs::remove_entry"]
+PROPS["C16"]["outside"] = "eviction (CLOCK sweep), clear(), cache-on/off equivalence, concurrency"
 PROPS["C03"]["smt"] = "c03"
 PROPS["C03"]["engine_name"] = "E1-kani + E2-mir-smt"
 PROPS["C03"]["technique"] += "; SMT (z3) over the MIR of one arbitrary iteration of the recovery scan loop"
